@@ -118,11 +118,11 @@ func (w *c12World) finish(keys []string, ticks int) {
 }
 
 //verif:entry tier=quick,thorough gosync steps=2000000 cover=fired,moved
-//verif:doc SetMove: slots n<=3 (quick) / n<=5 (thorough); pre-ticks < 2n (every tickedPos, wrapped or not); set and move delays symbolic in [1, 3n] intervals (+ arbitrary remainder); 0..3n-1 ticks between set and move; one key.
+//verif:doc SetMove: slots n<=3 (quick) / n<=4 (thorough); pre-ticks < 2n (every tickedPos, wrapped or not); set and move delays symbolic in [1, 3n] intervals (+ arbitrary remainder); 0..3n-1 ticks between set and move; one key.
 func Verif_C12_SetMove() {
 	maxN := 3
 	if rt.Tier() > 0 {
-		maxN = 5
+		maxN = 4
 	}
 	n := rt.Choose("slots", maxN) + 1
 	maxSteps := 3 * n
@@ -180,7 +180,7 @@ func Verif_C12_Script() {
 }
 
 //verif:entry tier=thorough gosync steps=4000000 cover=fired,removed,reset,moved
-//verif:doc Script (thorough): slots n = 2; pre-ticks < n; 4 operations on key a, each followed by 0..2 ticks (3 slots with 3 operations are covered by Script2Keys/Reuse); delays in [1, 2n+1] intervals.
+//verif:doc Script (thorough): slots n = 2; pre-ticks < n; 4 operations on key a, each followed by 0..1 ticks (3 slots with 3 operations are covered by Script2Keys/Reuse); delays in [1, 2n+1] intervals.
 func Verif_C12_Script4() {
 	n := 2
 	w := c12New(n)
@@ -189,15 +189,15 @@ func Verif_C12_Script4() {
 	for i := 0; i < pre; i++ {
 		w.doTick(keys)
 	}
-	ticks := []int{0, 1, 2}
+	ticks := []int{0, 1}
 	ops := 4
 	w.script(keys, ops, 2*n+1, ticks)
 }
 
 //verif:entry tier=thorough gosync steps=4000000 cover=fired,removed,reset,moved
-//verif:doc Script2Keys (thorough): slots n in {2,3}; 3 operations over keys {a,b} (interference between keys sharing a slot), each followed by 0, 1 or n ticks.
+//verif:doc Script2Keys (thorough): slots n = 2; 3 operations over keys {a,b} (interference between keys sharing a slot), each followed by 0, 1 or n ticks.
 func Verif_C12_Script2Keys() {
-	n := 2 + rt.Choose("slots", 2)
+	n := 2
 	w := c12New(n)
 	keys := []string{"a", "b"}
 	w.script(keys, 3, 2*n+1, []int{0, 1, n})
